@@ -891,6 +891,7 @@ bool World::init()
   servers_csv = csv;
   cfg_norder  = cfg->nservers;
   for (int i = 0; i < cfg->nservers && i < 8; i++) cfg_order[i] = i;
+  if ((cfg->flags & ARES_FLAG_PRIMARY) && cfg_norder > 1) cfg_norder = 1; // only the first configured server is used
   in_lib      = true;
   rc          = ares_set_servers_ports_csv(ch, csv.c_str());
   in_lib      = false;
@@ -1562,6 +1563,11 @@ void World::do_setservers(int variant)
       }
       if (e == std::string::npos) break;
       pos = e + 1;
+    }
+    if ((cfg->flags & ARES_FLAG_PRIMARY) && cfg_norder > 1) {
+      // ARES_FLAG_PRIMARY: only the first server of the list is used
+      for (int i = 1; i < cfg_norder; i++) kept[cfg_order[i]] = false;
+      cfg_norder = 1;
     }
     for (int i = 0; i < 8; i++)
       if (!kept[i]) {
